@@ -280,7 +280,11 @@ impl Check for SweepCheck {
                 let mut k = 0usize;
                 for c in &bw.conns {
                     for i in 0..=c.n_io {
-                        let kind = FAULT_MENU[k % FAULT_MENU.len()];
+                        let mut kind = FAULT_MENU[k % FAULT_MENU.len()];
+                        // C11 also covers a transport that accepts nothing (`Ok(0)`) while disconnect() writes
+                        if self.id == "C11" && k % 7 == 6 {
+                            kind = FaultKind::WriteZero;
+                        }
                         k += 1;
                         points.push((Some((c.idx, FaultPlan { at: FaultAt::Io(i), kind })), None));
                     }
@@ -442,6 +446,11 @@ fn wrap_script(r: &mut Rng, _index: u64, _tier: Tier) -> (CaseCfg, Vec<Step>) {
     // (PUBREC answered with PUBREL, PUBCOMP withheld): their identifiers live in the release
     // list only, and nothing else is retained when the counter comes round
     let release_phase = r.chance(1, 3);
+    // one case in five: crowded - eight QoS 2 exchanges in the release phase plus 1..7 unanswered
+    // SUBSCRIBE/UNSUBSCRIBE, i.e. 9..15 consecutive identifiers in use when the counter comes round
+    let crowded = !release_phase && r.chance(1, 4);
+    let n_long = if crowded { 8 } else { n_long };
+    let release_phase = release_phase || crowded;
     for _ in 0..n_long {
         tag += 1;
         s.push(match if release_phase { 2 } else { r.below(4) } {
@@ -457,10 +466,19 @@ fn wrap_script(r: &mut Rng, _index: u64, _tier: Tier) -> (CaseCfg, Vec<Step>) {
             s.push(poll0());
         }
     }
+    if crowded {
+        for k in 0..r.range(1, 7) {
+            s.push(if k % 2 == 0 {
+                Step::Subscribe(SubSpec { filters: vec![FilterSpec { filter: "w/#".into(), max_qos: 1, no_local: false, rap: false, rh: 0 }], props: vec![], cancel_at: None })
+            } else {
+                Step::Unsubscribe(UnsubSpec { filters: vec!["w".into()], props: vec![], cancel_at: None })
+            });
+        }
+    }
     s.push(Step::DropConn);
     // position the counter shortly before the wrap, either directly or by really burning identifiers
     let before: u16 = 65535 - r.below(4) as u16;
-    let burn = r.chance(1, 3);
+    let burn = r.chance(1, 3) && !crowded;
     if !burn {
         s.push(Step::SetNextPid(before));
     }
@@ -474,8 +492,10 @@ fn wrap_script(r: &mut Rng, _index: u64, _tier: Tier) -> (CaseCfg, Vec<Step>) {
     // short-lived publishes across the wrap: each one is acknowledged at once (newest held ack first)
     for _ in 0..r.range(6, 12) {
         tag += 1;
-        s.push(match r.below(5) {
+        // (with the send window used up by the exchanges in release, only SUBSCRIBE/UNSUBSCRIBE get through)
+        s.push(match if crowded { 1 + r.below(2) * 4 } else { r.below(5) } {
             0 => pubq(2, "short", tag, 3),
+            5 => Step::Unsubscribe(UnsubSpec { filters: vec!["s".into()], props: vec![], cancel_at: None }),
             1 => Step::Subscribe(SubSpec { filters: vec![FilterSpec { filter: "s".into(), max_qos: 0, no_local: false, rap: false, rh: 0 }], props: vec![], cancel_at: None }),
             _ => pub1("short", tag, 3),
         });
@@ -852,7 +872,7 @@ pub fn all() -> Vec<Box<dyn Check>> {
         max_steps: 70,
         epilogue_polls: 0,
         min_nt: (200, 2000),
-        required: vec!["allocations_with_ids_in_use", "wraps_observed", "allocations_with_only_released_ids_in_use"],
+        required: vec!["allocations_with_ids_in_use", "wraps_observed", "allocations_with_only_released_ids_in_use", "allocations_stepping_over_nine_or_more_ids"],
         exhaustive: false,
     }),
     Box::new(MixCheck {
